@@ -125,7 +125,7 @@ class ScriptGen:
             elif r < self.restart + self.enq:
                 L.append("enq %d %s %d" % (i, self.rnd.choice(self.d.evnames), self.newp()))
             elif r < self.restart + self.enq + self.drain:
-                L.append("%s %d %s %s" % (self.rnd.choice(["drain", "drain1"]), i, self.gv(), self.plan()))
+                L.append("%s %d %s %s" % (self.rnd.choice(["drain", "drain1", "drain1"]), i, self.gv(), self.plan()))
             else:
                 ev = self.rnd.choice(self.hot) if (self.hot and self.rnd.random() < self.evbias) else self.rnd.choice(self.d.evnames)
                 L.append("pe %d %s %d %s %s" % (i, ev, self.newp(), self.gv(), self.plan()))
